@@ -145,7 +145,8 @@ func c18expect(b string, v string) string {
 
 func init() {
 	// "!dirty" = linked with -X main.isGitDirty=true as well
-	binVersions := []string{"v0.2.0", "v1.2.3", "1.2.3", "dev-main", "v1.2.3+build.5", "v2.1.0-rc.1", "v0.3.1+dirty", "2.0.4-rc.1+b7", "v3", "v1.2.3!dirty", "v1.2.3+build.5!dirty", "2.1.0-rc.1+b7!dirty"}
+	binVersions := []string{"v0.2.0", "v1.2.3", "1.2.3", "dev-main", "v1.2.3+build.5", "v2.1.0-rc.1", "v0.3.1+dirty", "2.0.4-rc.1+b7", "v3", "v1.2.3!dirty", "v1.2.3+build.5!dirty", "2.1.0-rc.1+b7!dirty",
+		"v1.2.4-0.20231102205301-665205f9fb2c", "0.3.1-0.20231102205301-665205f9fb2c", "v2.0.1-rc.1.0.20231102205301-665205f9fb2c", "0.0.0-20231102205301-665205f9fb2c"}
 	Register(&Check{
 		ID:    "C18",
 		Level: "exploration",
